@@ -15,6 +15,7 @@ import (
 	"encoding/json"
 	"flag"
 	"fmt"
+	"go/build"
 	"os"
 	"path"
 	"path/filepath"
@@ -127,7 +128,7 @@ func main() {
 		return
 	}
 	run := common.NewRun("C13")
-	run.Res.Rule = "cases = (a) every package of the default table and ten spellings of forbidden/absent paths x four import forms x symbol-set configurations, (b) every process-exit entry point (os.Exit, log.Fatal*, Fatal*/Panic* of loggers from log.New, log.Default, slog.NewLogLogger, flag error handling) x configurations, run in child processes, (c) every redirected function/variable/builtin x stream configurations, (d) binding identity of 60 names after Use, (e) seeded sequences of 1..N environment operations over a small pool of colliding names with an Options.Env prefix; non-trivial = (a) every case except a plain import of a package that is in the table, (b-d) every case, (e) a sequence with a mutation that a later operation observes; distinct = distinct protocol line"
+	run.Res.Rule = "cases = (a) every package of the default table and ten spellings of forbidden/absent paths x four import forms x symbol-set configurations, (b) every process-exit entry point (os.Exit, log.Fatal*, Fatal*/Panic* of loggers from log.New, log.Default, slog.NewLogLogger, flag error handling) x configurations, run in child processes, (c) every redirected function/variable/builtin x stream configurations, (d) binding identity of 60 names after Use, (e) seeded sequences of 1..N environment operations over a small pool of colliding names with an Options.Env prefix, (f) values of interp.Options: Args nil / empty / one / many x Env nil / empty / entries x each stream nil / buffer / *os.File x restricted / unrestricted (full product of the pools, plus seeded random vectors), each observed by a script through os.Args, len(os.Args), flag.CommandLine (name, parse of os.Args[1:], output), flag.Parse+flag.Args, os.Environ, fmt.Println, log.Print, println, fmt.Scan, os.Std*, and BuildTags nil / empty / tags x GoPath empty / tree / inside the MapFS x SourcecodeFilesystem nil / MapFS observed through an import; non-trivial = (a) every case except a plain import of a package that is in the table, (b-d) every case, (e) a sequence with a mutation that a later operation observes, (f) every value except the all-defaults-with-buffers one; distinct = distinct protocol line"
 	defer run.Finish()
 	drv, err := common.StartDriver("C13")
 	if err != nil {
@@ -155,7 +156,14 @@ func main() {
 		os.MkdirAll(d, 0o755)
 		os.WriteFile(filepath.Join(d, "x.go"), []byte("package "+path.Base(p)+"\n\nfunc Marker() int { return 1 }\n"), 0o644)
 	}
-	hostEnv = []string{"HOME=/host-home", "TMPDIR=" + hostTmp, "XDG_CACHE_HOME=/host-cache", "XDG_CONFIG_HOME=/host-config",
+	// a package of the real tree whose two files are selected by a build tag
+	os.MkdirAll(filepath.Join(gopath, "src", "c13tags"), 0o755)
+	os.WriteFile(filepath.Join(gopath, "src", "c13tags", "tagged.go"), []byte("//go:build c13tag\n\npackage c13tags\n\nfunc Which() string { return \"tagged\" }\n"), 0o644)
+	os.WriteFile(filepath.Join(gopath, "src", "c13tags", "plain.go"), []byte("//go:build !c13tag\n\npackage c13tags\n\nfunc Which() string { return \"plain\" }\n"), 0o644)
+	if len(build.Default.BuildTags) != 0 {
+		run.Errorf("build.Default.BuildTags is not empty on this host: %v", build.Default.BuildTags)
+	}
+	hostEnv = []string{"GOPATH=" + gopath, "HOME=/host-home", "TMPDIR=" + hostTmp, "XDG_CACHE_HOME=/host-cache", "XDG_CONFIG_HOME=/host-config",
 		"PATH=/host-bin", "A=hostA", "B=hostB", "HOSTVAR=hostvalue", "GOMEMLIMIT=1GiB"}
 	par := runtime.NumCPU()
 	if par > 12 {
@@ -269,15 +277,35 @@ func main() {
 			}
 			for k, c := range fcases {
 				f := findings[fidx[k]]
+				if c.Kind == "opts" {
+					ans, err := drv.Ask(c.line())
+					if err != nil {
+						run.Errorf("driver: %v", err)
+						continue
+					}
+					still, detail := false, ""
+					for _, ob := range c.observations(ans, outs[k]) {
+						if !agrees(ob.Impl, ob.Ref) {
+							still = true
+						}
+						detail += fmt.Sprintf("%s: impl=%s ref=%s ", ob.Name, ob.Impl, ob.Ref)
+					}
+					run.Res.Known = append(run.Res.Known, common.KnownReplay{ID: f.ID, Status: f.Status, What: f.What, StillFails: still, Detail: detail})
+					continue
+				}
 				im, rf := implOf(c, outs[k]), refOf(c)
 				run.Res.Known = append(run.Res.Known, common.KnownReplay{ID: f.ID, Status: f.Status, What: f.What, StillFails: !agrees(im, rf),
 					Detail: fmt.Sprintf("impl=%s ref=%s", im, rf)})
 			}
 		}
 		cases = staticCases(keys)
-		nEnv, maxLen := 3000, 12
+		cases = append(cases, staticOpts()...)
+		nEnv, maxLen, nOpts := 3000, 12, 300
 		if run.Thorough() {
-			nEnv, maxLen = 60000, 30
+			nEnv, maxLen, nOpts = 60000, 30, 6000
+		}
+		for i := 0; i < nOpts; i++ {
+			cases = append(cases, genOpts(run.Rng))
 		}
 		for i := 0; i < nEnv; i++ {
 			c := caseT{Kind: "env", Entries: genEntries(run.Rng), Ops: genOps(run.Rng, maxLen)}
@@ -307,6 +335,10 @@ func main() {
 		o := outs[i]
 		if c.Kind == "env" {
 			checkEnv(run, c, lines[i], answers[i], o)
+			continue
+		}
+		if c.Kind == "opts" {
+			checkOpts(run, c, lines[i], answers[i], o)
 			continue
 		}
 		var y string
